@@ -7,7 +7,7 @@ import (
 	"runtime/pprof"
 	"syscall"
 
-	_ "verifharness/checks"
+	"verifharness/checks"
 	"verifharness/mc"
 	"verifharness/world"
 )
@@ -32,6 +32,13 @@ func main() {
 		defer pprof.StopCPUProfile()
 	}
 	id := os.Args[1]
+	if id == "C16race" {
+		// free-running bodies for the -race build; the race detector reports on stderr
+		reps := 20
+		fmt.Sscan(os.Args[2], &reps)
+		checks.RaceBodies(reps)
+		return
+	}
 	if os.Args[2] == "--replay" {
 		if len(os.Args) < 4 {
 			fmt.Println("HARNESS-ERROR --replay needs a file")
